@@ -1543,7 +1543,7 @@ func bucket(n int) int {
 
 func init() {
 	ev.Define("polygon_roundtrip", ev.Options{
-		Rule: "polygons of 1..12 components in disjoint slots (6 face centres / 8 cube corners / 12 edge midpoints / free), each 1..4 nested star rings drawn in the gnomonic plane, a rectangle through cell centres of one level (incl. first/last cell of a face) or a lattice rectangle through cell corners (incl. the face boundary, si/ti = 0 or 2^31); every star vertex replaced by itself / the centre of its cell at the component level or another level / such a centre moved one ulp / a cell corner, with the snapped fraction drawn in {0, 12–36 % (format decision at 23.1 %), 5…97 %, 100 %} and base level 0..30 (a third 30, a sixth at 0,1,7,8,9,15,16,17,23,24,25,29); loop sizes 3..100 (260 thorough) with mass on 63/64/65; built by PolygonFromLoops / PolygonFromOrientedLoops / then Invert / single reversed loop; empty, full, and face-centre triangles with ±0; decoded into a fresh or a previously used receiver, from a ByteReader (with trailing bytes) or a one-byte plain Reader. Compared: all vertices bit for bit, nesting, origin flags, loop and polygon bounds bit for bit, shape accessors, area/centroid bits, 24 probe points × {ContainsPoint, Loop.ContainsPoint, ContainsCell, IntersectsCell}, Contains/Intersects against the original, re-encoding, determinism. Non-trivial = compressed format (first byte 4) with ≥ 1 vertex stored off-centre and ≥ 1 face change inside a loop, or lossless format (first byte 1) with ≥ 1 cell-centre vertex.",
+		Rule:  "polygons of 1..12 components in disjoint slots (6 face centres / 8 cube corners / 12 edge midpoints / free), each 1..4 nested star rings drawn in the gnomonic plane, a rectangle through cell centres of one level (incl. first/last cell of a face) or a lattice rectangle through cell corners (incl. the face boundary, si/ti = 0 or 2^31); every star vertex replaced by itself / the centre of its cell at the component level or another level / such a centre moved one ulp / a cell corner, with the snapped fraction drawn in {0, 12–36 % (format decision at 23.1 %), 5…97 %, 100 %} and base level 0..30 (a third 30, a sixth at 0,1,7,8,9,15,16,17,23,24,25,29); loop sizes 3..100 (260 thorough) with mass on 63/64/65; built by PolygonFromLoops / PolygonFromOrientedLoops / then Invert / single reversed loop; empty, full, and face-centre triangles with ±0; decoded into a fresh or a previously used receiver, from a ByteReader (with trailing bytes) or a one-byte plain Reader. Compared: all vertices bit for bit, nesting, origin flags, loop and polygon bounds bit for bit, shape accessors, area/centroid bits, 24 probe points × {ContainsPoint, Loop.ContainsPoint, ContainsCell, IntersectsCell}, Contains/Intersects against the original, re-encoding, determinism. Non-trivial = compressed format (first byte 4) with ≥ 1 vertex stored off-centre and ≥ 1 face change inside a loop, or lossless format (first byte 1) with ≥ 1 cell-centre vertex.",
 		Quick: 24000, Thorough: 900000}, genPoly, checkPoly)
 	ev.Define("loop_roundtrip", ev.Options{
 		Rule:  "loops from the shared families (regular, star, lattice, cell; 1/4 reversed), snapped star rings, loops taken out of nested polygons (depth 0..3), empty and full loops, optionally Invert()ed after construction; Loop.Encode/Decode round trip compared on vertices (bits), IsHole/Sign, ContainsOrigin, RectBound/CapBound bits, Equal/BoundaryEqual, edges, area/turning angle/centroid bits, 16 probes × {ContainsPoint, ContainsCell, IntersectsCell}, Contains against the original, re-encoding (carries the exact depth), determinism, exact consumption. Non-trivial = ≥ 3 vertices and (a hole, or inverted, or containing the origin).",
